@@ -953,16 +953,26 @@ def _ensure_function_variant(
     refreshing: Set[Tuple[str, Tuple[str, ...]]] = ctx.setdefault(
         "_refreshing_functions", set()
     )
+    recursive: Set[Tuple[str, Tuple[str, ...]]] = ctx.setdefault(
+        "_recursive_functions", set()
+    )
     key = (name, signature)
     if key in refreshing:
+        recursive.add(key)
         return defs.get(name, {}).get(canonical)
 
     refreshing.add(key)
     try:
         params_src, block = sources[name]
         _parse_function(name, params_src, list(block), ctx, forced_signature=signature)
+        if key in recursive:
+            # the body called this very variant before its return type was known:
+            # parse it once more so that locals holding the result get the right type
+            recursive.discard(key)
+            _parse_function(name, params_src, list(block), ctx, forced_signature=signature)
     finally:
         refreshing.remove(key)
+        recursive.discard(key)
 
     defs = ctx.get("function_defs", {})
     canonical = _resolve_signature_alias(name, signature, ctx)
